@@ -183,11 +183,12 @@ def _set(x, path, v):
   return x
 
 
-def shrink_case(case, still_fails, budget=400, no_delete=lambda path: False):
+def shrink_case(case, still_fails, budget=400, no_delete=lambda path: False, deadline=None):
   """Greedy structural minimisation of a JSON case. `still_fails(case)` -> bool."""
   evals = [0]
   def test(c):
-    if evals[0] >= budget:
+    if evals[0] >= budget or (deadline is not None and time.time() > deadline):
+      evals[0] = max(evals[0], budget)
       return False
     evals[0] += 1
     try:
@@ -437,7 +438,8 @@ def parent_main(args):
         o, herr = run_one(prop, c)
         return herr is None and failure_matches(o, sig)
       if still(case):
-        case, used = shrink_case(case, still, budget=shrink_budget, no_delete=nd)
+        case, used = shrink_case(case, still, budget=shrink_budget, no_delete=nd,
+                                 deadline=time.time() + (25 if tier == 'quick' else 240))
     out, herr = run_one(prop, case)
     if herr or not failure_matches(out, sig):
       out = {'failures': [f], 'concrete': f.get('concrete')}
